@@ -87,7 +87,7 @@ func runC19(t *kernel.Tape, opt core.Opts) *core.Outcome {
 
 // runC09: concurrent callers of one compiled runnable are isolated.
 func runC09(t *kernel.Tape, opt core.Opts) *core.Outcome {
-	if alt := core.AltRunners["C09"]; alt != nil && t.Plan(5) == 0 {
+	if alt := core.AltRunners["C09"]; alt != nil && t.Plan(10) < 3 {
 		return alt(t, opt) // the bundled ReAct agent called by several tasks at once
 	}
 	o := &core.Outcome{}
